@@ -27,6 +27,8 @@ def check(ctx, rep):
     F.rule_constructors(fm, rep, 'R8')
     F.rule_setters(fm, rep, 'R9')
     K.rule_try_send(fm, rep, 'R10')
+    # every line that reaches the sink was built by format() inside try_send (no second path with its own buffer)
+    K.rule_send_metric_callers(fm, rep, 'R10c')
     K.rule_plain_forms(fm, rep, 'R11')
     # "parsing the line back yields exactly the supplied value list": the value reaches the formatter unaltered
     # (class and lossless flow of every To*Value impl; Duration units and the narrowing guard stay with C02)
